@@ -65,7 +65,7 @@ def gen_final_op(rng, g, cols, eng):
             keep = fcols - shared_nonkey
             fprog, fcols = ["proj", fprog, sorted(keep), None], frozenset(keep)
         p = exprs.gen_p(rng, cols | fcols, 1) if rng.random() < 0.4 else None
-        return {"kind": "join", "fixed": fprog, "pred": p, "fixed_engine": fixed_engine}
+        return {"kind": "join", "fixed": fprog, "pred": p, "fixed_engine": fixed_engine, "is_lhs": rng.random() < 0.3}
     st = g.unary((["leaf", "__T__"], cols, eng), kind)
     if st is None:
         st = (["dedup", ["leaf", "__T__"], None], cols, eng)
@@ -123,6 +123,12 @@ def apply_final(case, base_rel, b, engines, opt):
         p = b.plib(f["pred"]) if f["pred"] is not None else None
         # public route only: Relation.join(rhs, predicate, backtrack=, transfer=); the preferred
         # engine of a join is always the fixed operand's engine
+        if f.get("is_lhs"):
+            # the other public route: Join.partial(fixed, is_lhs=True).apply(target, ...)
+            op = R.Join(p if p is not None else R.Predicate.literal(True)).partial(fixed, is_lhs=True)
+            if opt is None:
+                return op.apply(base_rel)
+            return op.apply(base_rel, backtrack=opt["bt"], transfer=opt["tr"])
         if opt is None:
             return base_rel.join(fixed, p)
         return base_rel.join(fixed, p, backtrack=opt["bt"], transfer=opt["tr"])
